@@ -206,6 +206,9 @@ func u() *universe {
 			set(cadence.Conjunction, EntGg, EntH),
 			set(cadence.Disjunction, EntE, EntH),
 			set(cadence.Disjunction, EntGg, EntH, EntE),
+			// single-member sets of both kinds have the same ID ("…C.E"); only the kind tells them apart
+			set(cadence.Disjunction, EntE),
+			set(cadence.Disjunction, EntGg),
 		}
 		uni = un
 	})
